@@ -144,6 +144,8 @@ class Renderer:
         if t == 'v':
             return self.name(e[1])
         if t == 'c':
+            if self.w.cfg.get('doc_cases') == 'lowercase':
+                return 'true' if e[1] else 'false'
             return 'TRUE' if e[1] else 'FALSE'
         if t == 'r':
             s = self.w.pick(e[1], self.m)
